@@ -608,6 +608,48 @@ func c08History(r *fw.Rand, tier, config string, nops int) (files []srcFile, pro
 	return
 }
 
+// c08ReplacedRegistry: the registry under a Tofu is replaced in place by a newer compilation of edited sources (what
+// Bundle.WatchFiles does when a file changes). What the Tofu renders afterwards is what a Tofu made from the newer
+// compilation renders - whatever it had rendered before the change.
+func c08ReplacedRegistry(ctx *fw.Ctx) *fw.Result {
+	src := func(gen string) []srcFile {
+		return []srcFile{{"page.soy", "{namespace ns}\n/** @param? x */\n{template .page}\n" + gen + ":{call .part data=\"all\" /}{call other.t /}\n{/template}\n/** @param? x */\n{template .part}[" + gen + "-part {$x ?: 'nx'}]{/template}\n"},
+			{"other.soy", "{namespace other}\n/** */\n{template .t}(" + gen + "-other){/template}\n"}}
+	}
+	oldReg, err := compileRegistry(src("first"), nil)
+	if err != nil {
+		return &fw.Result{Verdict: fw.Inconclusive, Key: "replaced-registry-setup", Msg: err.Error()}
+	}
+	newReg, err := compileRegistry(src("second"), nil)
+	if err != nil {
+		return &fw.Result{Verdict: fw.Inconclusive, Key: "replaced-registry-setup", Msg: err.Error()}
+	}
+	freshReg, _ := compileRegistry(src("second"), nil)
+	tofu := soyhtml.NewTofu(oldReg)
+	warm := ctx.Rng.Intn(3) // how much the Tofu renders before the change: nothing, the page, the page and its parts
+	var buf bytes.Buffer
+	d := data.Map{"x": data.String("v")}
+	if warm >= 1 {
+		tofu.Render(&buf, "ns.page", d)
+	}
+	if warm >= 2 {
+		tofu.Render(&buf, "ns.part", d)
+		tofu.Render(&buf, "other.t", nil)
+	}
+	*oldReg = *newReg
+	for _, name := range []string{"ns.page", "ns.part", "other.t", "ns.page"} {
+		var got, want bytes.Buffer
+		gerr := tofu.Render(&got, name, d)
+		werr := soyhtml.NewTofu(freshReg).Render(&want, name, d)
+		if errClass(gerr) != errClass(werr) || got.String() != want.String() {
+			return &fw.Result{Verdict: fw.Violated, Key: "history-dependent-output:registry-replaced", Case: map[string]interface{}{"rendered_before_the_change": warm, "template": name},
+				Msg: fmt.Sprintf("after the registry was replaced in place, %s renders %q (err %v); a Tofu made from the newer compilation renders %q (the Tofu had rendered %d templates before the change)", name, got.String(), gerr, want.String(), warm)}
+		}
+	}
+	ctx.Obs("registries_replaced_in_place", 1)
+	return nil
+}
+
 func init() {
 	fw.Register(&fw.Prop{
 		ID:    "C08",
@@ -630,6 +672,11 @@ func init() {
 			return ""
 		},
 		Run: func(ctx *fw.Ctx, i int) fw.Result {
+			if i%50 == 7 {
+				if res := c08ReplacedRegistry(ctx); res != nil {
+					return *res
+				}
+			}
 			nops := 20
 			if ctx.Tier == "thorough" {
 				nops = 200
